@@ -291,31 +291,44 @@ package cdcn
 //@     invariant forall j :: index <= j && j < length ==> runes[j] != 10
 //@     decreases index
 // producer side of the parser's assumption nonnilq(tokens_): only tokens built by Token().Make are added
+// what the scanner hands to the parser (its own history put(tokens_)): one token per emit, of the type asked for;
+// an error token (type 0) is the last thing scanned — only the end-of-file token (type 4) follows it, so the scanner
+// goroutine stops as soon as the parser has something to complain about
+//@ define emitted(s, q, t) := len(put(q)) == len(old(put(q))) + 1 && put(q) == old(put(q)) ++ single(put(q)[len(old(put(q)))]) && ttype(put(q)[len(old(put(q)))]) == t
+//@ define noerror(q, lo, hi) := forall i :: { put(q)[i] } lo <= i && i < hi ==> ttype(put(q)[i]) != 0
 //@ func (*scanner_).emitToken
 //@   props C12 C19
 //@   safe
 //@   modifies view(this.tokens_), put(this.tokens_)
 //@   hint before call AddValue#1: token != nil
+//@   ensures[C12] emitted(this, this.tokens_, type_) && this.tokens_ == old(this.tokens_)
 //@ func (*scanner_).foundEOF
 //@   props C12 C19
 //@   safe
 //@   modifies view(this.tokens_), put(this.tokens_)
+//@   ensures[C12] emitted(this, this.tokens_, 4) && this.tokens_ == old(this.tokens_)
 //@ func (*scanner_).foundError
 //@   props C12 C19
 //@   safe
 //@   requires this.next_ < len(this.runes_)
 //@   modifies this.next_, view(this.tokens_), put(this.tokens_)
+//@   ensures[C12] emitted(this, this.tokens_, 0) && this.tokens_ == old(this.tokens_)
 //@ func (*scanner_).foundToken
 //@   props C12 C19
 //@   safe
 //@   modifies this.next_, this.first_, this.line_, this.position_, view(this.tokens_), put(this.tokens_)
 //@   ensures[C12] this.runes_ == old(this.runes_) && (!result ==> this.next_ == old(this.next_)) && (result ==> this.next_ >= old(this.next_))
+//@   ensures[C12] this.tokens_ == old(this.tokens_) && (put(this.tokens_) == old(put(this.tokens_)) || emitted(this, this.tokens_, type_))
 //@ func (*scanner_).scanTokens
 //@   props C12 C19
 //@   safe
 //@   modifies this.next_, this.first_, this.line_, this.position_, view(this.tokens_), put(this.tokens_)
+//@   let q := this.tokens_
+//@   let p0 := len(old(put(this.tokens_)))
+//@   ensures[C12] this.tokens_ == q && p0 < len(put(q)) && ttype(put(q)[len(put(q)) - 1]) == 4 && noerror(q, p0, len(put(q)) - 2)
 //@   loop 1:
 //@     invariant inv(scanner_, this)
+//@     invariant this.tokens_ == q && p0 <= len(put(q)) && noerror(q, p0, len(put(q)))
 //@     decreases *
 
 // ---------------------------------------------------------------- formatter (C10: state frame, termination, no runtime error)
